@@ -33,6 +33,27 @@ class GhostQueue:
         self.w = z3.K(z3.IntSort(), z3.RealVal(0))
         self.src = z3.K(z3.IntSort(), z3.IntVal(-1))   # which source position the image came from
 
+    # consumer-side operations: a reader that calls them is taking items away from its consumer.
+    # `full()` / `empty()` / `qsize()` depend on the consumer's schedule: any answer is possible.
+    removed = 0
+
+    def full(self):
+        from pyvc.ctx import cur
+
+        return cur().choose(2, "queue.full") == 1
+
+    def empty(self):
+        from pyvc.ctx import cur
+
+        return cur().choose(2, "queue.empty") == 1
+
+    def get(self, block=True, timeout=None):
+        self.removed += 1
+        return {"image": None, "frame_idx": None, "video_idx": None, "orig_size": None}
+
+    def get_nowait(self):
+        return self.get(False)
+
     def havoc(self):
         self.count = V.fresh_int("qcount")
         self.fidx, self.vidx, self.src = IA("qfidx", z3.IntSort()), IA("qvidx", z3.IntSort()), IA("qsrc", z3.IntSort())
@@ -186,7 +207,8 @@ class VideoReaderRun(_RunBase):
         kk = V.simplify_scalar(k)
         frames = Forall([kk], lambda i: z3.And(z3.Not(q.sent[V.zint(i)]), q.fidx[V.zint(i)] == V.zint(start_idx) + V.zint(i), q.vidx[V.zint(i)] == 0,
                                                q.src[V.zint(i)] == V.zint(start_idx) + V.zint(i), q.h[V.zint(i)] == Hr, q.w[V.zint(i)] == Wr))
-        out = [("PL/exactly-one-end-of-stream-marker-and-it-is-last", z3.And(L >= 1, q.sent[k])),
+        out = [("PL/the-reader-only-puts:it-never-takes-an-item-back-from-the-queue", getattr(q, "removed", 0) == 0),
+               ("PL/exactly-one-end-of-stream-marker-and-it-is-last", z3.And(L >= 1, q.sent[k])),
                ("PL/frames-before-the-marker-are-start..start+k-1-in-order-each-once-with-own-index-and-size", frames),
                ("PL/number-of-frames-delivered-at-most-the-range", z3.And(k >= 0, k <= V.zint(n)))]
         fails = z3.And(V.zint(start_idx) <= V.zint(video.fail_at), V.zint(video.fail_at) < V.zint(end_idx))
@@ -313,7 +335,8 @@ class LabelsReaderRun(_RunBase):
         kk = V.simplify_scalar(k)
         frames = Forall([kk], lambda i: z3.And(z3.Not(q.sent[V.zint(i)]), q.fidx[V.zint(i)] == labels.FIDX(V.zint(i)), q.vidx[V.zint(i)] == labels.VIDX(V.zint(i)), q.src[V.zint(i)] == V.zint(i),
                                                q.h[V.zint(i)] == z3.ToReal(labels._H(V.zint(i))), q.w[V.zint(i)] == z3.ToReal(labels._W(V.zint(i)))))
-        out = [("PL/exactly-one-end-of-stream-marker-and-it-is-last", z3.And(L >= 1, q.sent[k])),
+        out = [("PL/the-reader-only-puts:it-never-takes-an-item-back-from-the-queue", getattr(q, "removed", 0) == 0),
+               ("PL/exactly-one-end-of-stream-marker-and-it-is-last", z3.And(L >= 1, q.sent[k])),
                ("PL/frames-before-the-marker-are-labelled-frames-0..k-1-in-order-each-once-with-own-indices-and-size", frames),
                ("PL/number-of-frames-delivered-at-most-len(labels)", z3.And(k >= 0, k <= V.zint(labels.n)))]
         fails = z3.And(0 <= V.zint(labels.fail_at), V.zint(labels.fail_at) < V.zint(labels.n))
